@@ -56,10 +56,25 @@ partial def parseV (ps : PS) : Sexp → Option (V × PS)
     let (ws, ps1) ← parsePairs { ps with opened := id :: ps.opened } xs
     let v := V.hash id ws
     some (v, { defined := (id, v) :: ps1.defined, opened := ps.opened })
+  | .list (.atom "o" :: i :: tn :: disp :: xs) => do
+    let id ← freshId ps i
+    let t ← tn.str?
+    let d ← disp.str?
+    let (ws, ps1) ← parseAttrs { ps with opened := id :: ps.opened } xs
+    let v := V.obj id t d ws
+    some (v, { defined := (id, v) :: ps1.defined, opened := ps.opened })
   | .list [.atom "=", i] => do
     let n ← i.nat?
     let v ← ps.defined.lookup n
     some (v, ps)
+  | _ => none
+partial def parseAttrs (ps : PS) : List Sexp → Option (List (String × V) × PS)
+  | [] => some ([], ps)
+  | .list [k, v] :: xs => do
+    let k' ← k.str?
+    let (v', ps1) ← parseV ps v
+    let (as, ps2) ← parseAttrs ps1 xs
+    some ((k', v') :: as, ps2)
   | _ => none
 partial def parseVs (ps : PS) : List Sexp → Option (List V × PS)
   | [] => some ([], ps)
@@ -139,6 +154,15 @@ partial def valStr (m : List (Nat × Nat)) : V → String × List (Nat × Nat)
         let (t2, m'') := valStr m' kv.2
         (acc.1 ++ " (" ++ t1 ++ " " ++ t2 ++ ")", m'')) ("", (id, n) :: m)
       (s!"(h {n}{s})", m1)
+  | .obj id tn _ as =>
+    match m.lookup id with
+    | some n => (s!"(= {n})", m)
+    | none =>
+      let n := m.length
+      let (s, m1) := as.foldl (fun (acc : String × List (Nat × Nat)) (kv : String × V) =>
+        let (t, m') := valStr acc.2 kv.2
+        (acc.1 ++ " (" ++ hexOfString kv.1 ++ " " ++ t ++ ")", m')) ("", (id, n) :: m)
+      (s!"(o {n} {hexOfString tn}{s})", m1)
 
 def exec : List Sexp → String
   | [.atom "ser", o, c, v] =>
